@@ -35,7 +35,7 @@ ASSUMPTIONS = [
   'the wrapped module itself (Linen apply / nnx.merge) is the reference: if it is wrong, wrapper and reference are wrong alike',
   'nothing is asserted about the wrapper Rngs after a call that raised (keys are drawn before the wrapped module runs)',
 ]
-PROBES = ['tonnx_runs', 'tolinen_runs', 'mutable_update_propagated', 'eval_call_no_update', 'roundtrip_split_merge', 'fault_in_wrapped', 'nested_in_nnx_parent', 'nested_in_linen_parent', 'partitioned_param_metadata', 'tolinen_sharding_metadata', 'tolinen_rng', 'convert_roundtrip', 'tolinen_falsy_metadata', 'user_metadata_set', 'custom_registered_type', 'name_reregistered', 'failed_lazy_init_of_parent']
+PROBES = ['tonnx_runs', 'tolinen_runs', 'mutable_update_propagated', 'eval_call_no_update', 'roundtrip_split_merge', 'fault_in_wrapped', 'nested_in_nnx_parent', 'nested_in_linen_parent', 'partitioned_param_metadata', 'tolinen_sharding_metadata', 'tolinen_rng', 'convert_roundtrip', 'tolinen_falsy_metadata', 'user_metadata_set', 'custom_registered_type', 'name_reregistered', 'failed_lazy_init_of_parent', 'call_interleaved_with_bridge_apply']
 
 
 def setup_worker(w, tier):
@@ -91,7 +91,15 @@ def setup_worker(w, tier):
       b = self.param('b', P.int_init('bias'), (P.D,))
       return bridge.ToLinen(NMod, args=(P.D, self.use_rng, self.shard), name='wrapped')(x + b, train)
 
-  globals().update(NMod=NMod, NParent=NParent, LParent=LParent)
+  class BM(bridge.Module):
+    """A Linen-style NNX module (bridge.Module): its apply() installs a module context for the calling thread."""
+
+    def __call__(self, x):
+      for _ in range(3):
+        P.CTL.event('bridge-module-body')
+      return x + 1.0
+
+  globals().update(NMod=NMod, NParent=NParent, LParent=LParent, BM=BM)
 
 
 def generate(rs, tier):
@@ -113,6 +121,8 @@ def generate(rs, tier):
         ops.append(dict(op='roundtrip'))
       elif r < 0.88:
         ops.append(dict(op='convert'))
+      elif r < 0.97 and r >= 0.93:
+        ops.append(dict(op='call_while_other_thread_in_bridge_apply', mutable=None, fill=g.randrange(3), sched_seed=g.getrandbits(40)))
       elif r < 0.93:
         ops.append(dict(op='set_meta', var=g.randrange(64), key=g.choice(['synced', 'layer', 'note']), value=g.choice([False, 0, True, 3, 'x', None])))
       else:
@@ -328,9 +338,41 @@ class ToNNXWorld:
       self.log.add(oi, 'call', repr(op['mutable']))
     elif op['op'] == 'fault_call':
       n = self.call(oi, dict(op, op='call'))
-      self.call(oi, op, fault_at=op['at'] % max(1, n))
+      # faults go INSIDE the wrapped module; the parent's own event after the inner call returned is not one of them
+      # (by then the wrapper has legitimately written its updates back)
+      n_inner = n - 1 if self.plan['knobs']['nested'] else n
+      self.call(oi, op, fault_at=op['at'] % max(1, n_inner))
       self.call(oi, dict(op, op='call'))
       self.log.add(oi, 'fault_call')
+    elif op['op'] == 'call_while_other_thread_in_bridge_apply':
+      # another (simulated) thread sits inside bridge.Module.apply(..., mutable=[...]) of an unrelated module while
+      # this thread makes a plain call of the standalone wrapper: the wrapper must behave exactly as when called alone
+      from sim import sched as S
+
+      sc = S.Sched(rng=stream(op['sched_seed'], 'sched'), step_cap=20000)
+      xb = P.make_input(self.plan['knobs']['batch'], 0)
+      out = {}
+
+      def other():
+        out['y'] = BM().apply({}, xb, mutable=['stats', 'batch_stats', 'cache', 'params'])
+
+      P.CTL.yield_hook = lambda what: sc.yield_('ev')
+      try:
+        t = S.SimThread(sc, target=other)
+        t.start()
+        self.call(oi, dict(op, op='call'))
+        t.join()
+      except (S.Deadlock, S.StepCap) as e:
+        raise Violation('concurrent-calls-interfere', f'op {oi}: {e}')
+      finally:
+        P.CTL.yield_hook = None
+        sc.shutdown()
+      exc = [t_.get('exc') for t_ in sc.tasks.values() if t_.get('exc') is not None]
+      if exc:
+        raise Violation('concurrent-calls-interfere', f'op {oi}: bridge.Module.apply in the other thread raised {type(exc[0]).__name__}: {str(exc[0])[:200]}')
+      if any(sc.trace):
+        self.res.probe('call_interleaved_with_bridge_apply')
+      self.log.add(oi, 'concurrent', len(sc.trace))
     elif op['op'] == 'set_meta':
       # the user tags a Variable held by the wrapper; the tag must survive every later call (falsy values included)
       _, where = extract(self.w)
